@@ -121,7 +121,7 @@ where
         if pre.verts.len() > D + 2 {
             nontrivial = true;
         }
-        let op = hostile_op(&mut rng, &pre, &mem);
+        let op = if mem.script.is_empty() { hostile_op(&mut rng, &pre, &mem) } else { mem.script.remove(0) };
         let ceiling = work_ceiling::<D>(pre.verts.len(), pre.cells.len());
         progress(&format!("C19 fuzz case_seed={} D={} kernel={} step={} op={}", cs, D, kn.name(), step, op.to_json()));
         verif::work_begin(Some(ceiling));
